@@ -77,7 +77,8 @@ class Outcome(object):
 
 
 def load_known_findings(prop):
-    path = os.path.join(env.VERIF_ROOT, "known_findings.json")
+    # VERIF_KNOWN_FINDINGS is only used by the self-test of this mechanism (tests/test_known_findings.sh)
+    path = os.environ.get("VERIF_KNOWN_FINDINGS") or os.path.join(env.VERIF_ROOT, "known_findings.json")
     if not os.path.exists(path):
         return []
     with open(path) as f:
